@@ -1283,6 +1283,9 @@ bool Annotator::AnnotatorImpl::itemsEqual(const AnyCellmlElementPtr &itemWeak, c
 bool Annotator::AnnotatorImpl::validItem(const AnyCellmlElementPtr &item)
 {
     bool result = false;
+    if (item == nullptr) {
+        return result;
+    }
     switch (item->type()) {
     case CellmlElementType::COMPONENT:
     case CellmlElementType::COMPONENT_REF:
@@ -1365,7 +1368,7 @@ std::string Annotator::AnnotatorImpl::setAutoId(const AnyCellmlElementPtr &item)
             addIssueNoModel();
         }
     } else {
-        addIssueInvalidArgument(item->type());
+        addIssueInvalidArgument((item != nullptr) ? item->type() : CellmlElementType::UNDEFINED);
     }
     return newId;
 }
